@@ -378,6 +378,7 @@ func (s *Stream) Write(data []byte) (int, error) {
 		// Reduce the remaining data slice and update the count.
 		data = data[window:]
 		count += int(window)
+		verif.Yield("multiplexing.write.block")
 	}
 
 	// Success.
